@@ -849,7 +849,15 @@ impl TreeBuilder {
 			.expect("from_reward");
 		b.header.timestamp = prev.timestamp + chrono::Duration::seconds(spec.dt);
 		b.header.pow.secondary_scaling = next.secondary_scaling;
-		if self.chain.set_txhashset_roots(&mut b).is_err() {
+		let mut rooted = self.chain.set_txhashset_roots(&mut b).is_ok();
+		if !rooted && self.tree.nrd_enabled {
+			// a block that only the NRD rule refuses still gets its true roots (computed with the rule switched
+			// off in this thread), so that nothing but that rule can reject it
+			grin_core::global::set_local_nrd_enabled(false);
+			rooted = self.chain.set_txhashset_roots(&mut b).is_ok();
+			grin_core::global::set_local_nrd_enabled(true);
+		}
+		if !rooted {
 			// plausible sizes so that header-level checks pass
 			b.header.output_mmr_size = refmmr_size(prev.output_mmr_count() + b.outputs().len() as u64);
 			b.header.kernel_mmr_size = refmmr_size(prev.kernel_mmr_count() + b.kernels().len() as u64);
